@@ -274,4 +274,4 @@ def run(rep, tier, seed, replay=None):
         one_case(rep, cs, seed, i)
     for i in range(n // 4):
         optimized_case(rep, cs, seed, i)
-    cs.run(shard=max(10, n // 14))
+    cs.run(shard=max(10, 600 // 14))  # shard size of the quick tier: thorough runs use more files, not longer ones
